@@ -162,6 +162,14 @@ def map_models():
     y = Q.QDense(2, kernel_quantizer="quantized_po2(4)", bias_quantizer="quantized_bits(4,0,1,alpha=1)", name="d2")(y)
     return keras.Model(i, y)
 
+  def depthwise_wide():
+    # kernels that are wider than tall (and taller than wide): the accumulator must grow with kh*kw taps
+    i = keras.Input((3, 6, 2), name="in")
+    y = Q.QDepthwiseConv2D((1, 5), depthwise_quantizer="quantized_bits(4,0,1,alpha=1)", use_bias=False, name="dw15")(i)
+    y = Q.QActivation("quantized_bits(4,0,1,alpha=1)", name="a1")(y)
+    y = Q.QDepthwiseConv2D((3, 2), depthwise_quantizer="quantized_bits(4,0,1,alpha=1)", bias_quantizer="quantized_bits(4,0,1,alpha=1)", name="dw32")(y)
+    return keras.Model(i, y)
+
   def conv1d_stack():
     i = keras.Input((5, 2), name="in")
     y = Q.QConv1D(2, 3, kernel_quantizer="quantized_bits(5,1,1,alpha=1)", bias_quantizer="quantized_bits(5,1,1,alpha=1)", name="c1")(i)
@@ -176,7 +184,7 @@ def map_models():
     m.set_weights([np.array([[0.9, -2.3, 0.05], [0.11, 1.7, -0.1], [3.9, -0.4, 0.02], [1.0, 0.2, 0.07]], dtype=np.float32), np.zeros(3, dtype=np.float32)])
     m(np.zeros((1, 4), dtype=np.float32))
     return m
-  return [("auto_po2_dense", auto_po2_dense, "quantized_bits(8,0,1)"), ("dense_stack", dense_stack, "quantized_bits(8,0,1)"), ("conv_stack", conv_stack, "quantized_bits(8,0,1)"), ("conv1d_stack", conv1d_stack, "quantized_bits(4,2,0)")]
+  return [("auto_po2_dense", auto_po2_dense, "quantized_bits(8,0,1)"), ("dense_stack", dense_stack, "quantized_bits(8,0,1)"), ("conv_stack", conv_stack, "quantized_bits(8,0,1)"), ("conv1d_stack", conv1d_stack, "quantized_bits(4,2,0)"), ("depthwise_wide", depthwise_wide, "quantized_bits(4,0,1)")]
 
 
 def kind_of(t):
@@ -425,7 +433,7 @@ def run(tier, seed):
                  "estimate.analyze_accumulator (on real QDense / QConv2D / QConv1D layer objects whose get_weights() returns arrays of symbolic reals)"]
   r.bounds = ["dense kernels 2x2 and 3x1, conv kernels 1x2x1x2, 1x1x2x2 and 2x1x2, with and without bias; weights in [-8,8], input range inside [-64,64] - all symbolic reals",
               "oracle: for every input in the range and every output channel, |sum x*k + b| <= 2^(returned accumulator size)",
-              "data-type map: three real models (dense stack, conv2d/depthwise/dense stack, conv1d stack; fixed-point / ternary / binary / po2 weights, "
+              "data-type map: four real models (dense stack, conv2d/depthwise/dense stack, conv1d stack, non-square depthwise kernels; fixed-point / ternary / binary / po2 weights, "
               "fixed-point / po2 biases, signed and unsigned activations): per weight layer the solver decides that every sum of fan-in products "
               "(input-type value x weight-type value) plus a bias-type value is a value of the reported accumulator type (sign, integer and "
               "fraction bits); counterexamples are replayed with exact rationals at the extreme codes",
